@@ -25,6 +25,7 @@ struct Case {
     exp_eeprom: u32,
     exp_ram: u32,
     source_of_cap: &'static str, // "table" or "partfile"
+    placement: &'static str,     // where the device selection sits: "top", "macro", "if", "else", "nested-macro"
 }
 
 fn body_for(mem: &'static str, method: &'static str, usage: u64, ram_start: u32, rng: &mut Rng) -> Option<String> {
@@ -202,10 +203,11 @@ fn check(ctx: &Ctx, c: &Case) {
     let dev = c.device.clone().unwrap_or_else(|| "none".to_string());
     let must_build = c.usage <= c.cap;
     let rel = if c.usage < c.cap { "under" } else if c.usage == c.cap { "at" } else { "over" };
-    let replay = json!({"source": src, "include_dir": c.include_dir.as_ref().map(|p| p.display().to_string()), "device": dev, "memory": c.mem, "method": c.method,
+    let replay = json!({"source": src, "include_dir": c.include_dir.as_ref().map(|p| p.display().to_string()), "device": dev, "memory": c.mem, "method": c.method, "device_selected_via": c.placement,
         "usage": c.usage, "capacity": c.cap, "capacity_from": c.source_of_cap, "must_build": must_build,
         "expect_sizes": [c.exp_flash_words, c.exp_eeprom, c.exp_ram], "observed": out.brief()});
-    let sigbase = format!("cap/{}/{}/{}", c.source_of_cap, dev, c.mem);
+    let via = if c.placement == "top" { String::new() } else { format!("/device-via-{}", c.placement) };
+    let sigbase = format!("cap/{}/{}/{}{}", c.source_of_cap, dev, c.mem, via);
     match &out {
         Outcome::Panic(p) => ctx.violation(format!("{}/panic", sigbase), format!("{} {} usage {} of {} panicked: {}", dev, c.mem, c.usage, c.cap, fw::clip(p, 100)), replay),
         Outcome::Err(e) => {
@@ -228,7 +230,7 @@ fn check(ctx: &Ctx, c: &Case) {
             }
             if (b.flash_size, b.eeprom_size, b.ram_size) != (c.exp_flash_words, c.exp_eeprom, c.exp_ram) {
                 ctx.violation(
-                    format!("cap/{}/{}/reported-sizes", c.source_of_cap, dev),
+                    format!("cap/{}/{}/reported-sizes{}", c.source_of_cap, dev, via),
                     format!("{}: build reports flash/eeprom/ram sizes {}/{}/{} but {} says {}/{}/{}", dev, b.flash_size, b.eeprom_size, b.ram_size, c.source_of_cap, c.exp_flash_words, c.exp_eeprom, c.exp_ram),
                     replay,
                 );
@@ -256,9 +258,20 @@ fn scratch_dir() -> PathBuf {
     d
 }
 
-fn device_cases(name: Option<&str>, dev: &Device, rng: &mut Rng, out: &mut Vec<Case>) {
+/// the `.device` line at top level, or reached through a macro call / a conditional branch
+fn placed(name: &str, placement: &str) -> String {
+    match placement {
+        "macro" => format!(".macro select_part\n.device {}\n.endm\nselect_part\n", name),
+        "nested-macro" => format!(".macro select_inner\n.device @0\n.endm\n.macro select_part\nselect_inner {}\n.endm\nselect_part\n", name),
+        "if" => format!(".equ part_wanted = 1\n.if part_wanted\n.device {}\n.endif\n", name),
+        "else" => format!(".ifdef no_such_symbol\n.device ATnothing99\n.else\n.device {}\n.endif\n", name),
+        _ => format!(".device {}\n", name),
+    }
+}
+
+fn device_cases(name: Option<&str>, dev: &Device, placement: &'static str, rng: &mut Rng, out: &mut Vec<Case>) {
     let prefix = match name {
-        Some(n) => format!(".device {}\n", n),
+        Some(n) => placed(n, placement),
         None => String::new(),
     };
     for (mem, cap) in [("flash", dev.flash_size as u64), ("eeprom", dev.eeprom_size as u64), ("ram", dev.ram_size as u64)] {
@@ -266,8 +279,11 @@ fn device_cases(name: Option<&str>, dev: &Device, rng: &mut Rng, out: &mut Vec<C
             if usage == u64::MAX {
                 continue;
             }
-            for m in methods(mem) {
+            for (mi, m) in methods(mem).iter().enumerate() {
                 if *m == "org+jmp" && devices::forbidding_flag(dev, "jmp").is_some() {
+                    continue;
+                }
+                if placement != "top" && mi > 1 {
                     continue;
                 }
                 if let Some(body) = body_for(mem, m, usage, dev.ram_start, rng) {
@@ -284,6 +300,7 @@ fn device_cases(name: Option<&str>, dev: &Device, rng: &mut Rng, out: &mut Vec<C
                         exp_eeprom: dev.eeprom_size,
                         exp_ram: dev.ram_size,
                         source_of_cap: "table",
+                        placement,
                     });
                 }
             }
@@ -331,6 +348,7 @@ fn partfile_cases(pf: &PartFile, rng: &mut Rng, out: &mut Vec<Case>) {
                         exp_eeprom: pf.eeprom,
                         exp_ram: pf.ram_size,
                         source_of_cap: "partfile",
+                        placement: "top",
                     });
                 }
             }
@@ -460,9 +478,19 @@ fn all_cases(ctx: &Ctx) -> (Vec<Case>, Vec<PartFile>, Vec<String>) {
     let mut rng = Rng::for_case(ctx.seed, 0xC12, 0);
     let mut cases = vec![];
     let table = devices::table();
-    device_cases(None, &Device::new(0), &mut rng, &mut cases);
-    for (name, dev) in &table {
-        device_cases(Some(name), dev, &mut rng, &mut cases);
+    device_cases(None, &Device::new(0), "top", &mut rng, &mut cases);
+    for (i, (name, dev)) in table.iter().enumerate() {
+        device_cases(Some(name), dev, "top", &mut rng, &mut cases);
+        // the same limits with the device selected from expanded or conditional code
+        let placement = ["macro", "if", "else", "nested-macro"][i % 4];
+        device_cases(Some(name), dev, placement, &mut rng, &mut cases);
+        if ctx.tier == Tier::Thorough {
+            for pl in ["macro", "if", "else", "nested-macro"] {
+                if pl != placement {
+                    device_cases(Some(name), dev, pl, &mut rng, &mut cases);
+                }
+            }
+        }
     }
     let parts = devices::part_files();
     let mut skipped = vec![];
@@ -486,7 +514,10 @@ pub fn run(ctx: &Ctx) -> i32 {
     let without: Vec<&String> = table.iter().map(|(n, _)| n).filter(|n| !with_file.contains(n.as_str())).collect();
     ctx.put("table_devices_without_part_file", json!(without));
     for c in &cases {
-        ctx.distinct(fw::hash_str(&format!("{:?}|{}|{}|{}|{}", c.device, c.source_of_cap, c.mem, c.method, c.usage as i64 - c.cap as i64)));
+        ctx.distinct(fw::hash_str(&format!("{:?}|{}|{}|{}|{}|{}", c.device, c.source_of_cap, c.mem, c.method, c.usage as i64 - c.cap as i64, c.placement)));
+        if c.placement != "top" {
+            ctx.count(&format!("device_selected_via_{}", c.placement), 1);
+        }
     }
     for c in cases.iter().step_by(cases.len() / 9 + 1) {
         ctx.sample(json!({"device": c.device, "via": c.source_of_cap, "memory": c.mem, "method": c.method, "usage": c.usage, "capacity": c.cap, "source": format!("{}{}", c.prefix, fw::clip(&c.body, 160))}));
@@ -528,7 +559,7 @@ pub fn run(ctx: &Ctx) -> i32 {
                 }
                 if let Some(body) = body_for(mem, m, usage, dev.ram_start, &mut rng) {
                     extra.push(Case { device: Some(name.clone()), prefix: format!(".device {}\n", name), include_dir: None, mem, method: m, usage, cap, body,
-                        exp_flash_words: dev.flash_size, exp_eeprom: dev.eeprom_size, exp_ram: dev.ram_size, source_of_cap: "table" });
+                        exp_flash_words: dev.flash_size, exp_eeprom: dev.eeprom_size, exp_ram: dev.ram_size, source_of_cap: "table", placement: "top" });
                 }
             }
         }
@@ -541,7 +572,7 @@ pub fn run(ctx: &Ctx) -> i32 {
     let _ = std::fs::remove_dir_all(scratch_dir());
     fw::finish(
         ctx,
-        "every device of DEVICES and the no-device default x {flash, EEPROM, RAM} x usage {capacity-1, capacity, capacity+1} x fill methods (.org + one item, .org + two-word instruction straddling the limit, data runs of mixed widths, instruction runs, .byte reservations, .org in dseg/eseg, interleaved data segments); every shipped includes/*def.inc whose device is in the table built through build_file with capacities taken from its #pragma AVRPART MEMORY lines; RAM start via data-segment labels; unknown and repeated .device; usages of 2^16/2^31/2^32/2^33/2^40 (+0,1,8) units in every memory, which must fail although their low bits look legal; distinct_nontrivial = distinct (device, capacity source, memory, method, usage-capacity) tuples",
+        "every device of DEVICES and the no-device default x {flash, EEPROM, RAM} x usage {capacity-1, capacity, capacity+1} x fill methods, the `.device` line at top level and (one placement per device in quick, all four in thorough) inside a called macro, a macro called by a macro with the name as argument, a taken .if and the .else of an untaken .ifdef (.org + one item, .org + two-word instruction straddling the limit, data runs of mixed widths, instruction runs, .byte reservations, .org in dseg/eseg, interleaved data segments); every shipped includes/*def.inc whose device is in the table built through build_file with capacities taken from its #pragma AVRPART MEMORY lines; RAM start via data-segment labels; unknown and repeated .device; usages of 2^16/2^31/2^32/2^33/2^40 (+0,1,8) units in every memory, which must fail although their low bits look legal; distinct_nontrivial = distinct (device, capacity source, memory, method, usage-capacity) tuples",
         &[
             "for table rows without a shipped part file and for the defaults only enforced == reported == table row can be checked",
             "PROG_FLASH in the part files is in bytes (two per flash word)",
